@@ -104,8 +104,8 @@ DeltaStep ==
   /\ IF Len(deltas) = Len(dts) THEN phase' = "done" /\ UNCHANGED << pos, deltas >> /\ Emit([script |-> "tw", bytes |-> b])
      ELSE LET t == dts[Len(deltas) + 1]  size == IF t = 1 THEN 1 ELSE 2 IN
           IF pos + size > Total THEN phase' = "err" /\ UNCHANGED << pos, deltas >>
-          ELSE /\ deltas' = Append(deltas, IF t = 1 THEN [t |-> 1, ticks |-> At(b, pos), rem |-> 0]
-                                           ELSE LET w == U16At(b, pos) IN [t |-> 2, ticks |-> IF w >= 32768 THEN w - 65536 ELSE w, rem |-> 0])
+          ELSE /\ deltas' = Append(deltas, IF t = 1 THEN [t |-> 1, ticks |-> At(b, pos), rem |-> 0, big |-> 0]
+                                           ELSE LET w == U16At(b, pos) IN [t |-> 2, ticks |-> IF w >= 32768 THEN w - 65536 ELSE w, rem |-> 0, big |-> 0])
                /\ pos' = pos + size /\ phase' = "deltas"
   /\ UNCHANGED << st, val, b, processed, chunks, dts >>
 
